@@ -417,7 +417,9 @@ class Run(object):
         elif op == "set_fault":
             key = tuple(ev["key"])
             k = min(ev["k"], len(key))
-            # a failed assignment assigns nothing: live iterators stay judged
+            # a call that fails still walks (and may extend) the structure: like
+            # any mutating call it ends the judging of live iterators
+            self.mutation_begins()
             for attempt in range(1 + ev.get("retry", 0)):
                 outcome = "returned"
                 try:
